@@ -118,8 +118,13 @@ def gen_transform_spec(rng: Prng, depth: int = 0) -> dict:
 
 
 def gen_step(rng: Prng) -> dict:
-    k = rng.weighted([("apply", 10), ("edit", 5), ("cancel", 2)])
-    t = rng.below(64)
+    k = rng.weighted([("apply", 10), ("edit", 5), ("cancel", 2), ("query", 3)])
+    # which live tree: any of the pool, or (a third of the steps) the newest one - pipelines feed a result onward
+    t = -1 if rng.chance(0.33) else rng.below(64)
+    if k == "query":
+        return {"k": "query", "t": t, "node": rng.below(64),
+                "what": rng.choice(["branches", "paths", "tips", "furcations", "length", "traverse", "children",
+                                    "segments", "node_subtree", "is_tip", "neurites"])}
     if k == "edit":
         return {"k": "edit", "t": t, "node": rng.below(64), "col": rng.choice(["x", "y", "z", "r", "type"]),
                 "val": rng.randint(-9, 99), "via": rng.choice(["node", "ndata", "getitem"])}
@@ -136,7 +141,7 @@ def gen_step(rng: Prng) -> dict:
         s["rm"] = [rng.below(64) for _ in range(rng.choice([0, 1, 1, 2, 3, 6]))]
     elif op == "redirect":
         s["n"] = rng.below(64)
-        s["sort"] = rng.chance(0.6)
+        s["sort"] = rng.chance(0.5)
     elif op == "cat":
         s.update(t2=rng.below(64), n1=rng.below(64), n2=rng.below(64) if rng.chance(0.6) else 0,
                  translate=rng.chance(0.5))
@@ -252,9 +257,13 @@ def apply_op(step: dict, pool: list, cache: dict):
     tree = pool[ti]["tree"]
     n = len(tree)
     relaxed = pool[ti].get("relaxed")
-    if relaxed is not None and op != "sort_tree":
-        # a tree re-rooted without sorting is only fed to sort_tree
-        op = "sort_tree"
+    if relaxed is not None and op not in ("sort_tree", "get_subtree"):
+        # a tree re-rooted without sorting is only fed to sort_tree and get_subtree (both document sorted output)
+        if op in ("to_subtree", "cut_enter", "cut_leave", "cut_none", "cat", "transform"):
+            op = "get_subtree"
+            step = dict(step, n=step.get("n1", len(step.get("rm", [])) + step["t"]))
+        else:
+            op = "sort_tree"
     if op == "sort_tree":
         return "sort_tree", [ti], lambda: sort_tree(tree)
     if op == "get_subtree":
@@ -402,6 +411,49 @@ def execute(program: dict) -> dict:
                     break
                 if applied:
                     interesting = True
+                continue
+            if kind == "query":
+                # a read-only question to a live tree (it may fill caches inside the tree): inputs stay untouched,
+                # and whatever it left behind must not leak into later operations on this tree or its descendants
+                ti = step["t"] % len(pool)
+                tree = pool[ti]["tree"]
+                what = step["what"]
+                if pool[ti].get("relaxed") is not None and what not in ("length", "segments", "children", "is_tip"):
+                    world.log(si, "query", "skipped: tree re-rooted without sorting")
+                    continue
+                i = step["node"] % len(tree)
+                try:
+                    if what == "branches":
+                        out = len(tree.get_branches())
+                    elif what == "paths":
+                        out = len(tree.get_paths())
+                    elif what == "tips":
+                        out = len(tree.get_tips())
+                    elif what == "furcations":
+                        out = len(tree.get_furcations())
+                    elif what == "length":
+                        out = round(float(tree.length()), 3)
+                    elif what == "traverse":
+                        out = tree.traverse(leave=lambda nd, ch: 1 + sum(ch))
+                    elif what == "children":
+                        out = len(tree.node(i).children())
+                    elif what == "segments":
+                        out = len(tree.get_segments())
+                    elif what == "node_subtree":
+                        out = len(tree.node(i).subtree())
+                    elif what == "is_tip":
+                        out = bool(tree.node(i).is_tip())
+                    else:
+                        out = len(tree.get_neurites())
+                except Exception as e:  # noqa: BLE001
+                    out = f"raised {type(e).__name__}"  # queries are not C03's subject: only their after-effects are
+                v = check_untouched(pool)
+                world.log(si, "query", what, str(out), v["tag"] if v else None)
+                if v:
+                    v.pop("_j", None)
+                    v["op"] = f"query:{what}"
+                    violation = v
+                    break
                 continue
             if kind == "cancel":
                 ti = step["t"] % len(pool)
